@@ -20,6 +20,8 @@ func checkC10(c *Check) {
 	// ---- R1
 	c.manifestVersionRule("R1")
 	c.onlyValidatedRecorded("R1")
+	// the version the manager expects comes from deployment-updated events: only those of successful transactions
+	c.okOnlyPublished("R1")
 
 	// ---- R1 (cont.) what is handed on is the group that was matched: between acceptance and deployment the manifest
 	// group is picked out by name; a pointer to a range variable that outlives its iteration names whatever element the
